@@ -125,7 +125,13 @@ T = {
  "C06-r2m1": ("C06", "unescape_block_string keeps a trailing whitespace-only line that is longer than the common indent", "multi-line block string whose trailing whitespace-only line is longer than the common indent", ""),
  "C06-r2m2": ("C06", "from_cst fast path copies the text of a block string value without backslash / line terminator", "a one-line block string *value* (not a description) made of spaces or tabs only", ""),
  "C19-r2m1": ("C19", "InlineFragment::to_ast always writes a type condition (the parent type)", "an inline fragment without a type condition", ""),
- "C19-r2m2": ("C19", "serialize_string_value escape search uses is_control() (matches two-byte C1 controls) and slices one byte", "a string value containing U+0080..U+009F", ""),
+ "C19-r2m2": ("C19", "serialize_string_value escape search uses is_control() (matches two-byte C1 controls) and slices one byte", "a string value containing U+0080..U+009F", "C09 alphabet: U+0085 (C09 reports the panic)"),
+ "C03-r2m1": ("C03", "lexer State::Comment ends only at LF", "a comment followed by CR (CRLF or bare CR)", ""),
+ "C03-r2m2": ("C03", "State::LeadingZero arms reordered: the name-start reject arm shadows the exponent arm", "`0e5`, `-0E+12`: integer part exactly 0 directly followed by an exponent", ""),
+ "C07-r2m1": ("C07", "field_set: end-of-input check only in the else branch of `if has_braces`", "a braced field set followed by another token: `{ a } b`", ""),
+ "C07-r2m2": ("C07", "lexer State::Comment ends only at LF", "`Int # c\\rx`: a comment after the construct ended by a lone CR, extra token on the next line", ""),
+ "C10-r2m1": ("C10", "Name byte classes via a 128-entry table indexed with `byte & 0x7F`", "a non-ASCII character whose UTF-8 bytes alias onto name characters (U+00B0..B9, U+00F0..F9: `ñ`, `²`)", ""),
+ "C10-r2m2": ("C10", "FloatValue Deserialize::visit_string checks the Int grammar", "a deserializer that hands over an owned String (serde_json::from_value), value `3.5` or `3`", ""),
  "C33-m2": ("C33", "collect_fields: a fragment spread's fields replace nothing but are not merged into an already collected key", "same composite response key twice, the later occurrence from a named fragment with an extra sub-field", ""),
 }
 
